@@ -203,6 +203,7 @@ class Facts:
             if e is None:
                 continue
             for c in calls_in_order(e):
+                self._positionalise(c, fr)
                 out.append(Op('call', self.b.canon(c.func, fr)
                               if dotted(c.func) else None, c, s, node,
                               inlined=(id(c), fr.id) in self.b.inlined))
@@ -226,6 +227,42 @@ class Facts:
                 for tt in _targets(v):
                     self._store(out, tt, s, node, fr)
         return out
+
+    def _positionalise(self, call, fr):
+        """`m(p1=a, p2=b)` also gets `a, b` as positional arguments when
+        the callee is known and the keywords name its leading parameters in
+        order of position (the rules look at arguments by position; the two
+        spellings are the same call).  Done in place, once per call node."""
+        if not call.keywords or getattr(call, '_zv_pos', False) or any(
+                isinstance(a, ast.Starred) for a in call.args) or any(
+                    kw.arg is None for kw in call.keywords):
+            return
+        call._zv_pos = True
+        try:
+            tgt = self.b.resolve_call(call, fr)
+        except Exception:
+            tgt = None
+        if tgt is None:
+            return
+        f = tgt.func
+        params = list(f.params)
+        nargs = len(call.args)
+        if tgt.bind_self and params and not f.is_static:
+            params = params[1:]
+        elif tgt.kind == 'unbound' and params:
+            params = params[1:]
+            nargs -= 1
+        if f.vararg:
+            return
+        kws = {kw.arg: kw for kw in call.keywords}
+        for i in range(max(nargs, 0), len(params)):
+            kw = kws.get(params[i])
+            if kw is None:
+                break
+            # (the keyword stays: rules that look a parameter up by name
+            # find it; a parameter bound twice to one expression is harmless
+            # to the frames built from the call)
+            call.args.append(kw.value)
 
     def _c(self, e, fr):
         return self.b.canon(e, fr) if dotted(e) else None
